@@ -64,6 +64,17 @@ func c14Compete(r *vu.Rng, c *vsCluster) {
 		}
 		c.Gateways = append(c.Gateways, g)
 	}
+	// a second BackendTLSPolicy on the Service of the first one (both usable: the first is made usable if it was "full")
+	if len(c.BTPs) > 0 && len(c.BTPs[0].Targets) > 0 && r.Bool() {
+		c.BTPs[0].Full = false
+		c.BTPs[0].Targets = c.BTPs[0].Targets[:1]
+		cp := c.BTPs[0]
+		cp.Name = cp.Name + "-dup"
+		cp.Targets = []string{c.BTPs[0].Targets[0]}
+		cp.TS = int64(r.Intn(3))
+		cp.Host = "other-" + cp.Host
+		c.BTPs = append(c.BTPs, cp)
+	}
 	n := len(c.Routes)
 	for i := 0; i < n && i < 2; i++ {
 		if r.Bool() {
